@@ -203,8 +203,9 @@ CLAIMED = {
              "boundary without writing, exactly the pending management replies, the empty Stdout and Stderr records and one EndRequest with the "
              "exit status' protocol/application status and the request id; C07_reuse / C07_close_cases - the connection is handed back IF AND "
              "ONLY IF the request carried KeepConn and every write succeeded; otherwise ConnectionReset after the complete epilogue, or the "
-             "write error after a proper prefix; a read error while skipping writes nothing. 'Exactly one handler invocation per request' is "
-             "the shape of Token::run itself (one run_handler and one do_close per successful parse_request in Conn.run_loop), tied to the code "
+             "write error after a proper prefix; a read error while skipping writes nothing. C07_one_handler_call_per_request - one iteration of Token::run in the model: one parse_request, ONE handler run on "
+             "its result, ONE close when the handler returned a status, continuation only with the parser a successful close handed back; "
+             "that Conn.run_loop has the shape of the real Token::run is tied to the code "
              "by the correspondence check (handler events, transport log, bytes consumed, poll count on every generated connection) + an "
              "independent log-decoding oracle. Findings: F3 (leftover filling the buffer => connection dropped despite KeepConn, /repo fd29a7b) "
              "and F4 (a transport error of kind ConnectionAborted taken for a client abort => reuse after an I/O error, /repo b370518), both "
